@@ -459,9 +459,13 @@ def estimate_zscore(
         else estimate_scale(data, scale_method, axis, keepdims=True)
     )
     zscores = np.subtract(data, loc, dtype=np.float32)
-    # A scale counts as zero when it is negligible relative to the deviations
-    # themselves; an absolute threshold would make the Z-scores unit dependent.
-    tiny = np.finfo(np.float32).eps * np.max(np.abs(zscores), axis=axis, keepdims=True)
+    # A scale counts as zero when dividing the largest deviation by it would
+    # overflow float32.  The bound is relative (an absolute threshold would make
+    # the Z-scores unit dependent) and as small as float32 allows, so that one
+    # extreme outlier cannot switch the normalisation of everything else off.
+    tiny = float(np.finfo(np.float32).tiny) * np.max(
+        np.abs(zscores), axis=axis, keepdims=True
+    ).astype(np.float64)
     zero_scales = scale <= tiny
     if np.any(zero_scales):
         scale = np.where(zero_scales, 1, scale)
